@@ -48,7 +48,7 @@ func checkC02(c *Ctx) {
 	c.runSketchGen(simx, mx, c.pick(6, 12), "simulated merge trees, exact-statistics variant")
 	// direction B: inputs of thousands of values split over 3 sketches and merged; quantiles of the merged sketches
 	// validated by TLC against the union bag (Trace_Sketch)
-	c.runSketchTraces(c.pick(4, 40), false, c.pick(800, 2500), "split inputs merged, q at every k/(n-1)")
+	c.runSketchTraces(c.pick(4, 20), false, c.pick(800, 2000), "split inputs merged, q at every k/(n-1)")
 }
 
 // C12 - summary queries are mutually coherent and alpha-accurate
